@@ -459,10 +459,16 @@ def _r3_r4(ctx):
             small = []
             for sbb, d, te, fe in bool_switches(P, x, m):
                 data_first = norm(d[2])[0] == "field"
-                if d[1] in ("Lt", "Le"):
-                    small.extend(te if data_first else fe)
+                k = [const_value(q) for q in (d[2], d[3]) if const_value(q) is not None][0]
+                op = d[1] if data_first else {"Lt": "Gt", "Le": "Ge", "Gt": "Lt", "Ge": "Le"}[d[1]]      # data op k
+                # the largest offset let through on the "small" side must be 0x3fff, the largest a 14-bit pointer can say
+                largest = {"Lt": k - 1, "Le": k, "Gt": k, "Ge": k - 1}[op]
+                if largest > 0x3fff:
+                    continue
+                if op in ("Lt", "Le"):
+                    small.extend(te)
                 else:
-                    small.extend(fe if data_first else te)
+                    small.extend(fe)
             n_sel += len(sel)
             okk = okk and all(edge_dominated(xcfg, small, bb) for bb, _ in sel)
         okk = okk and n_sel >= 1
